@@ -6,7 +6,7 @@ from symx.engine import site
 ID = "C17"
 MODULES = ["hta.trace_analysis", "hta.trace_diff"]
 MUST_NOT_RAISE = True
-BUDGET_S = {"quick": 420, "thorough": 3000}
+BUDGET_S = {"quick": 420, "thorough": 1200}
 LONG = "void gemm<float>(int)"       # shortens to "gemm", colliding with the kernel named "gemm"
 NAMES = {"A": ("aten::mm", "user_annotation"), "a": ("aten::mm", "cpu_op"), "b": ("aten::add", "cpu_op"),
          "g": ("gemm", "kernel"), "G": (LONG, "kernel")}      # "A": the same name under a second category
